@@ -229,11 +229,36 @@ static std::string runResult(Ctx& c, const char * head)
   return o;
 }
 
+// rendering of a returned value exactly as the bloc command prints it (apps/main.cpp: output()), built from the
+// library's own readable* functions: the twin of the CLI for C19
+static std::string cliRender(Value * val)
+{
+  std::string o;
+  if (val->isNull()) return Value::STR_NIL;
+  if (val->type().level() == 0)
+  {
+    switch (val->type().major())
+    {
+    case Type::BOOLEAN: o = Value::readableBoolean(*(val->boolean())); break;
+    case Type::INTEGER: o = Value::readableInteger(*(val->integer())); break;
+    case Type::NUMERIC: o = Value::readableNumeric(*(val->numeric())); break;
+    case Type::LITERAL: o = *val->literal(); break;
+    case Type::ROWTYPE: o = Value::readableTuple(*(val->tuple())); break;
+    case Type::IMAGINARY: o = Value::readableImaginary(*(val->imaginary())); break;
+    default: break;
+    }
+  }
+  return o;
+}
+
+static std::string g_last_rets;
 static std::string retValue(Context& ctx)
 {
   Value * v = ctx.dropReturned();
+  g_last_rets = "none";
   if (!v) return "none";
   std::string s = ser(*v);
+  g_last_rets = hexenc(cliRender(v));
   delete v;
   return s;
 }
@@ -393,6 +418,7 @@ static void doOp(const std::vector<std::string>& f)
     endRun(root);
     std::string o = runResult(c, res.c_str());
     o += " retv=" + retValue(*root);
+    o += " rets=" + g_last_rets;
     if (!g_mon_events.empty()) { for (auto& e : g_mon_events) o += " mon=" + hexenc(e); g_mon_events.clear(); }
     reply(o);
   }
@@ -453,7 +479,7 @@ static void doOp(const std::vector<std::string>& f)
       else
       {
         Value& v = it->second->value(*c.ctx);
-        res = "val " + ser(v);
+        res = "val " + ser(v) + " rets=" + hexenc(cliRender(&v));
       }
     }
     catch (RuntimeError& re) { res = rerr(re); }
